@@ -2050,3 +2050,54 @@ mod d50 {
 		assert!(n <= 2, "D50: one wake-up, {n} attempts of a flush that fails every time");
 	}
 }
+
+// D51: the version index orders its keys by (user key, timestamp) only: two committed versions of a key with the same
+// timestamp are ONE B+tree key, the second insert overwrites the first.  `set k@5` and then `soft-delete k@5` (two
+// transactions): the history lists both versions while they are in memtables / tables, and only one once the index has
+// them -- the two back ends disagree and a retained version is lost.
+#[tokio::test(flavor = "multi_thread")]
+async fn d51_equal_timestamps_collide_in_the_version_index() {
+	use crate::transaction::{HistoryOptions, WriteOptions};
+	let mut seen = vec![];
+	for with_index in [false, true] {
+		let d = td();
+		let opts = mk_opts(d.path().to_path_buf(), |o| {
+			o.enable_versioning = true;
+			o.enable_vlog = true;
+			o.vlog_value_threshold = 0;
+			o.enable_versioned_index = with_index;
+		});
+		let tree = Tree::new(Arc::clone(&opts)).unwrap();
+		{
+			let mut tx = tree.begin().unwrap();
+			tx.set_at(b"k", b"v", 5).unwrap();
+			tx.commit().await.unwrap();
+		}
+		{
+			let mut tx = tree.begin().unwrap();
+			tx.soft_delete_with_options(b"k", &WriteOptions::default().with_timestamp(Some(5))).unwrap();
+			tx.commit().await.unwrap();
+		}
+		let hist = |tree: &Tree| {
+			let tx = tree.begin().unwrap();
+			let ho = HistoryOptions::new().with_tombstones(true);
+			let mut it = tx.history_with_options(&b"k"[..], &b"l"[..], &ho).unwrap();
+			let mut v = vec![];
+			let mut ok = it.seek_first().unwrap();
+			while ok {
+				v.push((it.key().timestamp(), it.key().is_tombstone()));
+				ok = it.next().unwrap();
+			}
+			v
+		};
+		let before = hist(&tree);
+		tree.flush().unwrap();
+		let after = hist(&tree);
+		println!("D51 index={with_index}: before flush {before:?}, after flush {after:?}");
+		assert_eq!(before.len(), 2, "precondition: both versions are listed before the flush");
+		seen.push(after.clone());
+		assert_eq!(after, before, "D51: index={with_index}: the flush changed the history");
+		let _ = tokio::time::timeout(std::time::Duration::from_secs(10), tree.close()).await;
+	}
+	assert_eq!(seen[0], seen[1], "D51: the two back ends disagree");
+}
